@@ -52,8 +52,10 @@ PROFILES = {
     'c14': dict(p_fanin=0.9, n_sources=(2, 2, 3), n_ops=(0, 2, 5, 10), p_rq=0.6, p_split=0.0, p_trace=0.0,
                 fault_kinds=('fail', 'shutdown', 'restore', 'wo', 'addres', 'block', 'adjust', 'offset', 'ct', 'wake')),
     'c15': dict(p_trace=0.25, p_maintainer=0.7),
-    'c16': dict(p_maintainer=0.8, p_batch_source=0.4),
-    'c17': dict(kinds=dict(handler=2, proc=2, buffer=3, batcher=6, gates=0.5, path=0.5), p_batch_source=0.7,
+    'c16': dict(p_maintainer=0.8, p_batch_source=0.4,
+                fault_kinds=('fail', 'shutdown', 'restore', 'wo', 'addres', 'block', 'adjust', 'rewire', 'offset', 'ct', 'wake',
+                             'trywork', 'mkasset', 'mkasset')),
+    'c17': dict(kinds=dict(handler=2, proc=2, buffer=3, batcher=6, gates=2, path=0.5), p_batch_source=0.7,
                 p_empty_batch=0.3, fault_kinds=('fail', 'shutdown', 'restore', 'block', 'adjust', 'wake', 'addres')),
 }
 
@@ -309,6 +311,20 @@ def _gen_spec(rng, profile_name, P):
         plan = [horizon]
     spec['plan'] = plan
     spec['ops'] = gen_ops(rng, spec, P, horizon)
+    if 'offset' in P['fault_kinds'] and rng.random() < 0.2:
+        # one-shot offsets requested after construction but before the first simulate() call
+        timed = [d['n'] for d in devices if d['k'] in ('handler', 'proc', 'source', 'sink')]
+        spec['pre'] = [{'op': 'offset', 'dev': rng.choice(timed), 'v': rng.choice((-1, -0.5, 0.25, 0.5, 1, 2))}
+                       for _ in range(rng.choice((1, 1, 2)))]
+    if 'adjust' in P['fault_kinds'] or 'offset' in P['fault_kinds']:
+        # restock a source around the moment its budget runs out (while its next cycle may still be running)
+        for d in devices:
+            if d['k'] == 'source' and d['parts'] is not None and d['ct'] > 0 and rng.random() < 0.4:
+                t = d['parts'] * d['ct'] + rng.choice((0, 0.25, 0.5, d['ct'] / 2, d['ct'], d['ct'] + 0.25, 2 * d['ct']))
+                if t <= horizon:
+                    spec['ops'].append({'t': t, 'pr': rng.choice(PRIO_POOL), 'op': 'adjust', 'dev': d['n'],
+                                        'v': rng.choice((1, 2, 3))})
+        spec['ops'].sort(key=lambda o: (o['t'], -o['pr']))
     spec['tiebreak'] = core.gen_tiebreak(rng)
     if P['starve'] and rng.random() < 0.12:
         cands = [d['n'] for d in devices if d['k'] in ('source', 'handler', 'proc', 'buffer', 'sink', 'batcher')]
@@ -405,6 +421,8 @@ def gen_ops(rng, spec, P, horizon):
         elif k == 'trywork':
             if not spec['maintainer']:
                 continue
+        elif k == 'mkasset':
+            op['v'] = rng.choice((1, 2.5, -3, 10))
         ops.append(op)
     ops.sort(key=lambda o: (o['t'], -o['pr']))
     return ops
